@@ -109,6 +109,7 @@ var propImports = map[string][]imp{
 		{"C02.10/lifecycle", "C13", "the protocol is told of every arrival and departure exactly once: a second peer is admitted once the first has gone", []string{"C13.1/addPipe", "C13.2/detached", "C13.3/once-each"}},
 	},
 	"C03": {
+		{"C03.17/websocket-frame", "C01", "the reply handed to the application is the payload of its own frame, in memory of its own: a body that is a window into a buffer the connection reuses turns into the next frame's bytes (a stale or unsolicited reply the receiver rightly drops) before Recv returns it", []string{"C01.6/websocket"}},
 		{"C03.16/send-contract", "C17", "a failed transmission leaves the message with its sender at every layer: REQ keeps that message for retransmission, and a buffer released under it is recycled into the next incoming reply", []string{"C17.5/send-contract|internal/core"}},
 		{"C03.14/ownership", "C17", "the request REQ keeps is not released under it (with retries disabled too): a recycled buffer turns the reply being delivered into another message", []string{"C17.1/E5|protocol/req"}},
 		{"C03.13/api-copies", "C01", "the reply handed to the application is a private copy: it is not overwritten by a later message", []string{"C01.8/api-copies"}},
@@ -133,6 +134,7 @@ var propImports = map[string][]imp{
 		{"C05.14/ownership", "C17", "the saved route and the reply are not aliased with recycled buffers", []string{"C17.1/E5|protocol/rep", "C17.1/E5|protocol/respondent", "C17.1/E5|protocol/xrep", "C17.1/E5|protocol/xrespondent"}},
 	},
 	"C06": {
+		{"C06.17/framing", "C01", "a publication crosses a stream transport unmodified whatever its length: the frame announces len(Header)+len(Body) and carries exactly those bytes on every send path", []string{"C01.3/framing", "C01.9/E6d"}},
 		{"C06.16/derived-coherent", "C11", "PUB reaches every subscriber: a list of subscribers kept beside the table of pipes is rebuilt or cleared in the same critical section as every change of the table", []string{"C11.16/derived-coherent"}},
 		{"C06.15/unique-primitive", "C01", "MakeUnique copies before it gives up its reference: two contexts making the same publication their own at the same time each end up with an intact private copy", []string{"C01.1/pool|MakeUnique"}},
 		{"C06.14/api-copies", "C01", "a delivered body is a private copy: it does not change when later messages arrive", []string{"C01.8/api-copies"}},
